@@ -130,6 +130,20 @@ def r2(ctx):
     ctx.need(len(cs) == 1, "BayesianModel.add_observations no longer delegates to self._add_observations exactly once")
     cnode = g.node_containing(cs[0])
     ok = g.guarded_by_raise(cnode, lambda t, arm: arm == "then" and refuses_mask(t, data))
+    if not ok:
+        # the same thing written the other way round: the delegation is only reached under `every row is observed`
+        # (and whatever else happens on the other paths, the model is not fed there)
+        from engine.astutil import stmt_conditions
+        env = single_defs(f.node)
+        par = enclosing_map(f.node)
+        st_ = cs[0]
+        while par.get(st_) is not None and not isinstance(st_, ast.stmt):
+            st_ = par[st_]
+        N0 = Norm(strict=False)
+        want = N0.b(parse_expr(f"{data}.observation_mask.all()"))
+        for t, pol in stmt_conditions(f.node.body).get(id(st_), []):
+            if N0.b(inline(t, env), neg=not pol) == want:
+                ok = True
     ctx.check("R2", f"{f.site()}::mask-refusal-dominates", ok and U(cs[0].args[0]) == data,
               "raises when any row is masked, on every path to the delegation",
               "the delegation to _add_observations is not dominated by a refusal of `not data.observation_mask.all()` "
@@ -153,11 +167,26 @@ def r3(ctx):
     env = single_defs(f.node)
     scr = [k for k, v in env.items() if isinstance(v, ast.Call) and U(v.func) == "Screen.load_h5"]
     ctx.need(len(scr) == 1, "train_model.main: loaded screen not found")
+    defs = {}
+    for n in walk_own(f.node):
+        if isinstance(n, ast.Assign) and len(n.targets) == 1 and isinstance(n.targets[0], ast.Name):
+            defs.setdefault(n.targets[0].id, []).append(n.value)
+
+    def possible(e, depth=0):
+        """the set of expressions (as text) a value can be, following local names through ALL their definitions"""
+        if isinstance(e, ast.Name) and e.id in defs and e.id != scr[0] and depth < 6:
+            out = set()
+            for v in defs[e.id]:
+                out |= possible(v, depth + 1)
+            return out
+        if isinstance(e, ast.IfExp):
+            return possible(e.body, depth + 1) | possible(e.orelse, depth + 1)
+        return {U(e)}
     for i, c in enumerate(cs):
-        a = inline(c.args[0], {k: v for k, v in env.items() if k != scr[0]})
-        ctx.check("R3", f"{f.site()}::add_observations#{i}", U(a) == f"{scr[0]}.subset_observed()",
+        vals = possible(c.args[0]) - {"None"}
+        ctx.check("R3", f"{f.site()}::add_observations#{i}", vals == {f"{scr[0]}.subset_observed()"},
                   "the model is given data.subset_observed()",
-                  f"the model is trained on `{U(a)}` instead of the observed subset of the loaded screen")
+                  f"the model is trained on `{sorted(vals)}` instead of the observed subset of the loaded screen")
 
 
 def ingestion_feed(ctx, f):
@@ -190,9 +219,32 @@ def r4(ctx):
             if fl.attr != attr or fl.col != col:
                 problems.append(f"`{k}` is fed from {fl.attr}{'' if fl.col is None else '[:, %s]' % fl.col} (expected {attr}{'' if col is None else '[:, %s]' % col})")
             sels.add(fl.selector)
+        # a selection made in two steps (X[rows][keep] / X[rows[keep]]): the later steps must be the observation mask of the
+        # rows selected so far; the first step is the row selection proper
+        from engine import rowstream as RS
+        fenv = single_defs(f.node)
+        norm_sels = set()
+        for sl in list(sels):
+            if isinstance(sl, tuple):
+                head = sl[0]
+                for j, step in enumerate(sl[1:], 1):
+                    try:
+                        sf = RS.array_field(parse_expr(step), fenv)
+                    except RS.Undecided:
+                        sf = None
+                    prefix = sl[:j] if j > 1 else sl[0]
+                    if sf is not None and sf.root == data and sf.attr == "observation_mask" and sf.selector == prefix:
+                        filters.append((sf, True))
+                    else:
+                        problems.append(f"rows are selected a second time by `{step}`, which is not the observation mask of the rows selected so far")
+                norm_sels.add(head)
+            else:
+                norm_sels.add(sl)
+        sels = norm_sels
         mask_filters = [(fl, pol) for fl, pol in filters if fl.attr == "observation_mask" and fl.root == data]
         for fl, pol in filters:
-            sels.add(fl.selector)
+            s0 = fl.selector[0] if isinstance(fl.selector, tuple) else fl.selector
+            sels.add(s0)
         if len(sels) > 1:
             problems.append(f"the values of one row come from different row selections {sorted(map(str, sels))}")
         # (a per-row observation_mask test is optional: add_observations refuses partially observed data before delegating - R2)
@@ -435,7 +487,14 @@ def r7(ctx, rule="R7", sites=ROW_CLASS_SITES):
             feed, pos, filters, loop, call = ingestion_feed(ctx, f)
             sel = feed["y"].selector if "y" in feed else None
             ctx.need(sel is not None, f"{f.site()}: the rows fed to the sampler are not a selection of the screen's rows")
+            if isinstance(sel, tuple):
+                sel = sel[0]
             e = inline(parse_expr(sel), single_defs(f.node))
+            # an index vector np.flatnonzero(M) / np.where(M)[0] selects the rows where M holds
+            if isinstance(e, ast.Call) and call_name(e) == "np.flatnonzero" and len(e.args) == 1:
+                e = e.args[0]
+            elif isinstance(e, ast.Subscript) and isinstance(e.value, ast.Call) and call_name(e.value) in ("np.where", "np.nonzero") and U(e.slice) == "0" and len(e.value.args) == 1:
+                e = e.value.args[0]
             cls = control_count_class(e, ids)
             var = f"rows fed to _update [{sel}]"
         elif var == "<rows whose treatments are kept>":
